@@ -8,7 +8,7 @@ use serde_json::{json, Value as J};
 
 pub static PROP: Prop = Prop {
     id: "C11",
-    rule: "cases: a well-formed program from the flat generator (all constructs; names are never operator words; strings contain blanks, tabs, newlines, operator and delimiter characters) is rendered three ways: canonical (one blank between tokens), `original` (each boundary empty where gluing is lexically safe, or a random string over {space, tab, CR, LF} of length 1-3) and `transformed` (every empty boundary gets a random whitespace string of length 0-3, every non-empty one is replaced by another non-empty string; leading/trailing whitespace added); whitespace runs of 10^3, 2*10^4 and 2*10^5 (thorough 2*10^6) characters at one boundary are parsed in dev and release child processes; additionally 1-2 complete subexpressions (token spans from the reference parser, any node kind except the statement list) are wrapped in 1-3 pairs of parentheses. One case in 40 first parses a rejected program with groups left open (state must not carry over). Oracle (metamorphic): all accepted renderings parse to the same AST, string payloads byte-identical. Non-trivial: >= 5 tokens and the transformation touches >= 2 boundaries of different token-class pairs, or wraps a non-leaf node; distinct by (set of class pairs touched, wrapped node kinds).",
+    rule: "cases: a well-formed program from the flat generator (all constructs; names are never operator words; strings contain blanks, tabs, newlines, operator and delimiter characters) is rendered three ways: canonical (one blank between tokens), `original` (each boundary empty where gluing is lexically safe, or a random string over {space, tab, CR, LF} of length 1-3) and `transformed` (every empty boundary gets a random whitespace string of length 0-3, every non-empty one is replaced by another non-empty string; leading/trailing whitespace added); whitespace runs of 10^3, 2*10^4 and 2*10^5 (thorough 2*10^6) characters at one boundary are parsed in dev and release child processes; additionally 1-2 complete subexpressions (token spans from the reference parser, any node kind except the statement list) are wrapped in 1-3 pairs of parentheses. One case in 64 is generated over, and parsed in a fresh child process with, 13 user-registered operators (symbolic and word operators of every kind; `---`, `+++` and `%%` are registered in two or three positions under one spelling), and a fixed table of 15 such programs is laid out with every whitespace character at every boundary. One case in 40 first parses a rejected program with groups left open (state must not carry over). Oracle (metamorphic): all accepted renderings parse to the same AST, string payloads byte-identical. Non-trivial: >= 5 tokens and the transformation touches >= 2 boundaries of different token-class pairs, or wraps a non-leaf node; distinct by (set of class pairs touched, wrapped node kinds).",
     assumptions: &[
         "token boundaries come from the generator; a boundary is left empty only if the reference tokenizer splits the glued text into exactly the generated tokens",
         "programs whose canonical rendering the engine rejects, or parses differently from the reference parser (then subexpression spans are unknown), are excluded and counted; C02 reports those",
@@ -72,8 +72,67 @@ fn render(toks: &[Tok], seps: &[String], lead: &str, trail: &str) -> String {
 }
 
 fn compare(label: &str, text: &str, want: &str, canonical: &str) -> CaseResult {
-    let case = json!({"canonical": canonical, "variant": text, "kind": label});
-    match parse_sexp(text) {
+    compare_parsed(label, text, want, canonical, parse_sexp(text), false)
+}
+
+/// operators registered in the child of the `registered` scenario: spellings registered in two or
+/// three positions at once, symbolic and word operators of every kind
+pub const REGS: [(&str, &str, i64, bool); 13] = [
+    ("postfix", "---", 0, false),
+    ("infix", "---", 100, false),
+    ("prefix", "+++", 0, false),
+    ("infix", "+++", 115, false),
+    ("postfix", "!!", 0, false),
+    ("infix", "~>", 30, true),
+    ("infix", "@@", 65, false),
+    ("infix", "within", 200, false),
+    ("postfix", "is_set", 0, false),
+    ("prefix", "neg", 0, false),
+    ("infix", "%%", 120, true),
+    ("prefix", "%%", 0, false),
+    ("postfix", "%%", 0, false),
+];
+
+/// the variant closes a parenthesis directly after a postfix operator and in front of a spelling
+/// that is registered both as postfix and as infix operator
+fn closes_postfix_before_dual(canonical: &str, variant: &str) -> bool {
+    let tab = registered_table();
+    let (c, _) = lex(canonical, &tab);
+    let (v, _) = lex(variant, &tab);
+    let mut j = 0;
+    let mut inserted_close_after: Vec<usize> = vec![];
+    for t in &v {
+        if j < c.len() && c[j].kind == t.kind && c[j].text == t.text {
+            j += 1;
+        } else if t.is_delim(")") && j > 0 {
+            inserted_close_after.push(j - 1);
+        }
+    }
+    inserted_close_after.iter().any(|&i| {
+        c[i].kind == TK::Op
+            && tab.postfix.contains(&c[i].text)
+            && c.get(i + 1).map(|n| n.kind == TK::Op && tab.postfix.contains(&n.text) && tab.infix.contains_key(&n.text)).unwrap_or(false)
+    })
+}
+
+fn compare_parsed(label: &str, text: &str, want: &str, canonical: &str, parsed: crate::eng::Guarded<String>, registered: bool) -> CaseResult {
+    let mut case = json!({"canonical": canonical, "variant": text, "kind": label});
+    let label = if registered {
+        case["registered"] = json!(true);
+        format!("registered-ops:{}", label)
+    } else {
+        label.to_string()
+    };
+    // known engine behaviour, see KNOWN_FINDINGS: an operand takes at most one postfix operator,
+    // so a spelling registered as postfix AND infix is read as infix after `a ++` but as postfix
+    // after `( a ++ )`
+    let label = if registered && label.ends_with("paren") && closes_postfix_before_dual(canonical, text) {
+        format!("{}:postfix-operand-before-postfix-and-infix-spelling", label)
+    } else {
+        label
+    };
+    let label = label.as_str();
+    match parsed {
         Ok(Ok(got)) if got == want => Ok(()),
         Ok(Ok(got)) => Err(Failure::new(
             format!("{}:changes-tree", label),
@@ -89,29 +148,128 @@ fn compare(label: &str, text: &str, want: &str, canonical: &str) -> CaseResult {
     }
 }
 
-fn case(src: &mut Src, st: &mut Stats, _env: &Env) -> CaseResult {
+fn registered_table() -> OpTable {
+    let mut tab = OpTable::builtin();
+    for (kind, name, prec, right) in REGS {
+        match kind {
+            "infix" => {
+                tab.infix.insert(name.to_string(), (prec, right));
+            }
+            "prefix" => {
+                tab.prefix.insert(name.to_string());
+            }
+            _ => {
+                tab.postfix.insert(name.to_string());
+            }
+        }
+    }
+    tab
+}
+
+/// parses the texts in a fresh child process in which REGS are registered
+fn parse_registered(texts: &[&str], env: &Env, st: &mut Stats) -> Result<Vec<crate::eng::Guarded<String>>, Failure> {
+    let scenario = json!({"texts": texts});
+    let out = run_child(&env.exe, &["worker", "c11r"], &scenario.to_string(), std::time::Duration::from_secs(60));
+    st.add_extra("child_processes", 1);
+    let doc: J = match (&out.end, serde_json::from_str::<J>(&out.stdout)) {
+        (ChildEnd::Exit(0), Ok(d)) => d,
+        _ => return Err(Failure::new("registered-ops:child", format!("child ended with {:?}; stderr: {}", out.end, out.stderr), scenario)),
+    };
+    Ok((0..texts.len())
+        .map(|i| {
+            let r = &doc[i];
+            if let Some(s) = r["ok"].as_str() {
+                Ok(Ok(s.to_string()))
+            } else if let Some(e) = r["err"].as_str() {
+                Ok(Err(e.to_string()))
+            } else {
+                Err(r["panic"].as_str().unwrap_or("?").to_string())
+            }
+        })
+        .collect())
+}
+
+pub fn worker_registered() -> i32 {
+    use std::io::Read;
+    install_panic_hook();
+    let mut s = String::new();
+    std::io::stdin().read_to_string(&mut s).ok();
+    let doc: J = serde_json::from_str(&s).unwrap_or(json!({}));
+    for (i, (kind, name, prec, right)) in REGS.iter().enumerate() {
+        crate::props::register_op(&json!({"kind": kind, "name": name, "prec": prec, "right": right}), i as i64);
+    }
+    let out: Vec<J> = doc["texts"]
+        .as_array()
+        .cloned()
+        .unwrap_or_default()
+        .iter()
+        .map(|t| match parse_sexp(t.as_str().unwrap_or("")) {
+            Ok(Ok(x)) => json!({"ok": x}),
+            Ok(Err(e)) => json!({"err": e}),
+            Err(p) => json!({"panic": p}),
+        })
+        .collect();
+    println!("{}", J::Array(out));
+    0
+}
+
+fn case(src: &mut Src, st: &mut Stats, env: &Env) -> CaseResult {
     st.eval();
-    if src.pick(40) == 0 {
+    // one case in 64 runs against a process with user-registered operators (see REGS)
+    let registered = src.pick(64) == 63;
+    if !registered && src.pick(40) == 0 {
         // an earlier, rejected input with groups left open must not influence later parses
         let junk = format!("{}a + ", ["(", "[", "f(", "{1:"][src.pick(4)].repeat(1 + src.pick(12)));
         let _ = parse_sexp(&junk);
         st.hist("rejected-program-parsed-first");
     }
-    let tab = OpTable::builtin();
-    let cfg = SynCfg::new(&tab);
+    let tab = if registered { registered_table() } else { OpTable::builtin() };
+    let mut cfg = SynCfg::new(&tab);
+    if registered {
+        st.hist("registered-operators");
+        // the registered spellings are used as often as all built-in ones together
+        let n = cfg.infix.len();
+        for i in 0..n {
+            let (_, name, _, _) = REGS.iter().filter(|r| r.0 == "infix").nth(i % 6).unwrap();
+            cfg.infix.push(name.to_string());
+        }
+        for r in REGS.iter().filter(|r| r.0 == "prefix") {
+            cfg.prefix.push(r.1.to_string());
+            cfg.prefix.push(r.1.to_string());
+        }
+        for r in REGS.iter().filter(|r| r.0 == "postfix") {
+            cfg.postfix.push(r.1.to_string());
+        }
+        cfg.max_operands = 8;
+    }
     let (toks, omitted_semi) = gen_program_x(src, &cfg);
     let canonical = join(&toks);
     let (tree, spans) = match parse_tokens(&toks, &tab) {
         Ok(x) => x,
+        // a spelling registered in several positions may leave the reference parser without a
+        // strict reading; the whitespace relation needs none
+        Err(_) if registered => (crate::model::R::Stmts(vec![]), vec![]),
         Err(e) => return Err(Failure::new("harness-bug:generator", format!("{} ({})", canonical, e), json!({"canonical": canonical}))),
     };
-    let want = match parse_sexp(&canonical) {
-        Ok(Ok(s)) => s,
-        Ok(Err(_)) => {
-            st.exclude("canonical-rejected");
-            return Ok(());
+    let want = if registered {
+        match parse_registered(&[&canonical], env, st)?.pop() {
+            Some(Ok(Ok(s))) => s,
+            Some(Ok(Err(_))) => {
+                st.exclude("canonical-rejected");
+                return Ok(());
+            }
+            Some(Err(p)) => return Err(Failure::new("registered-ops:ws:panic", format!("{:?}: {}", canonical, p), json!({"canonical": canonical, "registered": true}))),
+            None => return Ok(()),
         }
-        Err(p) => return Err(Failure::new("ws:panic", format!("{:?}: {}", canonical, p), json!({"canonical": canonical}))),
+    } else {
+        match parse_sexp(&canonical) {
+            Ok(Ok(s)) => s,
+            Ok(Err(_)) => {
+                st.exclude("canonical-rejected");
+                return Ok(());
+            }
+            Err(p) => return Err(Failure::new("ws:panic", format!("{:?}: {}", canonical, p), json!({"canonical": canonical}))),
+        }
     };
 
     // --- whitespace ---
@@ -214,7 +372,18 @@ fn case(src: &mut Src, st: &mut Stats, _env: &Env) -> CaseResult {
     if nontrivial {
         st.nontrivial(&format!("{:?}|{:?}", touched, wrapped_kinds));
     }
-    st.sample(|| json!({"canonical": canonical, "original": original, "transformed": transformed, "wrapped": wrapped_text}));
+    st.sample(|| json!({"canonical": canonical, "original": original, "transformed": transformed, "wrapped": wrapped_text, "registered_operators": registered}));
+    if registered {
+        let mut texts: Vec<&str> = vec![&original, &transformed];
+        if let Some(w) = &wrapped_text {
+            texts.push(w);
+        }
+        let parsed = parse_registered(&texts, env, st)?;
+        for (i, p) in parsed.into_iter().enumerate() {
+            compare_parsed(if i == 2 { "paren" } else { "ws" }, texts[i], &want, &canonical, p, true)?;
+        }
+        return Ok(());
+    }
     compare("ws", &original, &want, &canonical)?;
     compare("ws", &transformed, &want, &canonical)?;
     if let Some(w) = &wrapped_text {
@@ -319,13 +488,61 @@ fn fixed(env: &Env, st: &mut Stats) -> CaseResult {
             }
         }
     }
+    // the same table for programs over user-registered operators, some registered in two or
+    // three positions under one spelling
+    let rtab = registered_table();
+    let rprograms = [
+        "x --- - 1", "7 --- y", "a --- b --- c", "a +++ b", "+++ a +++ +++ b", "a %% %% b", "%% a %% b %%", "a !! ~> b !!", "a is_set within [ a ]", "neg a @@ neg b",
+        "( a --- ) --- 2", "f ( a --- , b ) --- 1", "a --- ; b", "a ~> b ~> c", "a within b is_set",
+    ];
+    for p in rprograms {
+        let (toks, _) = lex(p, &rtab);
+        let mut variants: Vec<String> = vec![p.to_string()];
+        for w in WS {
+            for w2 in ["", " ", "\n\t"] {
+                let seps = vec![format!("{}{}", w, w2); toks.len().saturating_sub(1)];
+                variants.push(render(&toks, &seps, "", ""));
+                variants.push(render(&toks, &seps, w, w));
+                // only the boundary before / after the second token is widened
+                let mut one = vec![" ".to_string(); toks.len().saturating_sub(1)];
+                if one.len() >= 2 {
+                    one[0] = format!(" {}{}", w, w2);
+                    variants.push(render(&toks, &one, "", ""));
+                    one[0] = " ".to_string();
+                    one[1] = format!(" {}{}", w, w2);
+                    variants.push(render(&toks, &one, "", ""));
+                }
+            }
+        }
+        let refs: Vec<&str> = variants.iter().map(|s| s.as_str()).collect();
+        let mut parsed = parse_registered(&refs, env, st)?.into_iter();
+        let want = match parsed.next() {
+            Some(Ok(Ok(s))) => s,
+            _ => continue,
+        };
+        st.hist("registered-operators:fixed-table");
+        st.nontrivial(&format!("registered:{}", p));
+        for (i, r) in parsed.enumerate() {
+            st.eval();
+            compare_parsed("ws", &variants[i + 1], &want, p, r, true)?;
+        }
+    }
     Ok(())
 }
 
-fn replay(case: &J, st: &mut Stats, _env: &Env) -> CaseResult {
+fn replay(case: &J, st: &mut Stats, env: &Env) -> CaseResult {
     st.eval();
     let canonical = case["canonical"].as_str().unwrap_or("");
     let variant = case["variant"].as_str().unwrap_or("");
+    if case["registered"].as_bool() == Some(true) {
+        let mut parsed = parse_registered(&[canonical, variant], env, st)?;
+        let v = parsed.pop().unwrap();
+        let want = match parsed.pop() {
+            Some(Ok(Ok(s))) => s,
+            _ => return Ok(()),
+        };
+        return compare_parsed(case["kind"].as_str().unwrap_or("ws"), variant, &want, canonical, v, true);
+    }
     let want = match parse_sexp(canonical) {
         Ok(Ok(s)) => s,
         _ => return Ok(()),
